@@ -19,3 +19,9 @@ reg('C03', 'runtime monitoring: API-boundary event log checked offline against a
     'target as scope, and agreement between entry points. ~10^6 recorded calls per quick run.',
     'Trusted: vlib/refsel.py as the relation; namespaces only exercised on namespace-aware documents; DEBUG output '
     'on stdout taken as the observable of flags forwarding.')
+reg('C04', 'runtime monitoring: history monitors (pristine-twin differential, select-vs-match, tree-mutation tripwire)',
+    'Each call of generated query histories on one document is judged by three monitors at the API boundary: same '
+    'answer as on a pristine twin after purge(), select membership equals per-element match, and an identical '
+    'structural fingerprint of the tree (incl. attribute value types and identities) before and after, with bs4 '
+    'mutators trapped during the call. Histories are biased to the memoising pseudo-classes and to twin subtrees.',
+    'Trusted: re-materialising the same recipe yields an equal pristine document; fingerprint covers public bs4 state.')
